@@ -406,6 +406,7 @@ def run(ctx):
                            '' if not miss else f'{mn} delegates to the wrapped {f.value.attr.lstrip("_")} but drops its own parameter(s) {miss}: the caller\'s '
                            f'{miss[0]} is silently replaced by the default', ci.mod.rel, r.lineno)
     ctx.notes.append(f'C04.d delegation-completeness sites: {n_del}')
+    _global_phase_controlled(ctx, repo)
 
 
 def _in_other_branch(parents, ret, store_line):
@@ -422,3 +423,83 @@ def _in_other_branch(parents, ret, store_line):
                 return True
         cur = p
     return False
+
+
+def _global_phase_controlled(ctx, repo):
+    """C04.e - GlobalPhaseGate.controlled(): the control that is turned into the Z target is the one that was tested and the one removed."""
+    import numpy as _np
+    ctx.decided.append('C04.e GlobalPhaseGate.controlled rewrites "phase controlled on c1..cn" into Z**t on one control only when that control is a qubit required to be 1, and '
+                       'hands exactly the remaining control values / shapes on (interpreted on model control lists with distinct entries)')
+    ctx.rule('C04.e', 'controlled global phase: interpreting GlobalPhaseGate.controlled on model results (3 and 2 controls with pairwise different values and dimensions), the shortcut fires '
+             'only if the last control is a qubit controlled on 1, and then returns ZPowGate(exponent = arg(coefficient)/pi).controlled(n-1, the other control values, the other shapes) in their order',
+             floor=6, style='FDX')
+    ci = repo.cls('cirq.ops.global_phase_op.GlobalPhaseGate')
+    fn = repo.method(ci.qual, 'controlled')
+
+    class CV(list):
+        pass
+
+    class Res:
+        def __init__(self, cvs, shape):
+            self.control_values, self.control_qid_shape = CV(cvs), tuple(shape)
+
+        def num_controls(self):
+            return len(self.control_qid_shape)
+
+    class Me:
+        coefficient = 1j
+
+        def _is_parameterized_(self):
+            return False
+
+    class Z:
+        def __init__(self, exponent):
+            self.exponent = exponent
+
+        def controlled(self, n, cvs, shape):
+            return ('Z', self.exponent, n, list(cvs), tuple(shape))
+    cases = [
+        ([(0,), (2,), (1,)], (3, 4, 2), True),
+        ([(1,), (0,), (1,)], (2, 3, 2), True),
+        ([(0,), (1,)], (2, 2), True),
+        ([(1,), (0,)], (2, 2), False),          # last control is an anti-control
+        ([(1,), (1,), (2,)], (2, 2, 3), False),  # last control is a qutrit level
+        ([(1,), (1, 0)], (2, 2), False),         # last control accepts both values
+        ([(1,)], (2,), True),
+    ]
+    for cvs, shape, fires in cases:
+        res = Res(cvs, shape)
+
+        def call_hook(call, it, res=res):
+            s = ast.unparse(call.func)
+            if s == 'super().controlled':
+                return res
+            if s.split('.')[-1] == 'ZPowGate':
+                return Z(it.ev(call.keywords[0].value) if call.keywords else it.ev(call.args[0]))
+            if s == 'isinstance':
+                v = it.ev(call.args[0])
+                return isinstance(v, (Res, CV))
+            return NotImplemented
+
+        def attr_hook(node, it):
+            try:
+                v = it.ev(node.value)
+            except fdx.Unsupported:
+                return NotImplemented
+            if isinstance(v, (Res, Me, Z)) and hasattr(v, node.attr):
+                return getattr(v, node.attr)
+            return NotImplemented
+        params = [a.arg for a in fn.args.args]
+        env = {params[0]: Me(), **{p: None for p in params[1:]}}
+        it = fdx.NumInterp(env, call_hook=call_hook, attr_hook=attr_hook)
+        it.builtins.update({'complex': complex, 'float': float, 'len': len})
+        try:
+            out = it.call(fn)
+        except (fdx.Unsupported, fdx.Raised) as ex:
+            raise AnalysisError(f'GlobalPhaseGate.controlled not interpretable: {ex}')
+        # returning the generic ControlledGate is always right; the Z form is right only for a last control that is a qubit required to be 1
+        want = ('Z', 0.5, len(shape) - 1, list(cvs[:-1]), tuple(shape[:-1])) if fires else 'the ControlledGate unchanged'
+        ok = out is res or (fires and isinstance(out, tuple) and out[0] == 'Z' and abs(out[1] - 0.5) < 1e-9 and out[2:] == want[2:])
+        ctx.ob('C04.e', f'{ci.qual}.controlled:cv={cvs}:shape={shape}', ok, '' if ok else
+               f'phase i controlled on values {cvs} (shapes {shape}) must become {want}; the method returns {out if not isinstance(out, Res) else "the ControlledGate unchanged"} - the phase '
+               'is applied under the wrong control condition', ci.mod.rel, fn.lineno)
